@@ -25,7 +25,7 @@ RULE = (
     "abort raised by an observer) are run in-process and through external/<method>: the traces (every evaluator request "
     "bitwise, every delivered result array, exit code) must be identical. Crash points: the optimizer process is killed "
     "(SIGKILL, SIGTERM) while the parent computes evaluation j (immediately, or 0.6 s later while the parent waits for the next request), for j = 0..2 (quick) / every j (thorough) of several "
-    "configurations, and the evaluator raises at evaluation j. Oracle: never OPTIMIZER_STEP_FINISHED after a kill, the "
+    "configurations, and the evaluator raises (ValueError, OSError subclasses, KeyError, a custom exception) at evaluation j; one configuration has an evaluation that takes 11 s. Oracle: never OPTIMIZER_STEP_FINISHED after a kill, the "
     "step returns within 30 s of the kill, no optimizer process is left running afterwards, the evaluator's exception "
     "reaches the caller. Error reports: a backend plug-in (found by both processes through its entry point) that, after k "
     "evaluations, raises with / without a message, fails a bare assert, or leaves the process with exit status 3: the run ends "
@@ -72,6 +72,8 @@ CONFIGS: dict[str, dict[str, Any]] = {
                     "gradient": {"number_of_perturbations": 2, "perturbation_magnitudes": 0.02}},
     "de-vectorized-large": {"optimizer": {"method": "differential_evolution", "parallel": True,
                                           "options": {"seed": 3, "popsize": 4, "maxiter": 1, "tol": 0.0}}, "_n": 9},
+    # one evaluation takes longer than any time-out inside the protocol (11 s; only slept in the external run)
+    "slsqp-slow-evaluation": {"optimizer": {"method": "slsqp", "options": {"maxiter": 2}}, "_sleep": (1, 11.0)},
     "de-explicit-start-masked": {"optimizer": {"method": "differential_evolution", "options": {"seed": 5, "popsize": 2, "maxiter": 1, "tol": 0.0}},
                                  "variables": {"mask": [True, True, False]}, "_start": [-0.5, 0.25, 1.1]},
 }
@@ -134,11 +136,24 @@ def build(name: str, external: bool) -> tuple[dict[str, Any], AffineEvaluator, i
     return cfg, ev, spec.get("_abort_at_start")
 
 
-def run_config(name: str, external: bool, kill: tuple[Any, ...] | None = None, raise_at: int | None = None) -> dict[str, Any]:  # noqa: FBT001
+class InjectedEvaluatorError(Exception):
+    pass
+
+
+RAISE_TYPES = {"ValueError": ValueError, "FileNotFoundError": FileNotFoundError, "TimeoutError": TimeoutError,
+               "KeyError": KeyError, "custom": InjectedEvaluatorError}
+
+
+def run_config(name: str, external: bool, kill: tuple[Any, ...] | None = None, raise_at: int | None = None,  # noqa: FBT001
+               raise_type: str = "ValueError") -> dict[str, Any]:
     cfg, ev, abort_at = build(name, external)
     state: dict[str, Any] = {"killed": None, "pids": []}
 
+    sleep = CONFIGS.get(name, {}).get("_sleep") if external else None
+
     def hook(call: int, variables: np.ndarray, context: Any) -> None:  # noqa: ANN401, ARG001
+        if sleep is not None and call == sleep[0]:
+            time.sleep(sleep[1])
         if kill is not None and call == kill[0]:
             pids = child_pids()
             state["pids"] = pids
@@ -176,7 +191,7 @@ def run_config(name: str, external: bool, kill: tuple[Any, ...] | None = None, r
         if raise_at is not None and call == raise_at:
             state["pids"] = child_pids()
             msg = f"injected evaluator error {call}"
-            raise ValueError(msg)
+            raise RAISE_TYPES[raise_type](msg)
 
     ev.hook = hook
     ctx = OptimizerContext(evaluator=ev)
@@ -413,12 +428,13 @@ def run_case(case: dict[str, Any]) -> dict[str, Any]:
               f"the optimizer process was killed with signal {case['signal']} during evaluation {case['at']} but the step returned {out['code']!r}", case)
         check(not out["leftover"], "child-left-running", f"optimizer process {out['leftover']} still running", case)
         return {"calls": out["calls"], "code": out["code"], "exc": type(out["exc"]).__name__ if out["exc"] else None}
-    out = run_config(name, True, raise_at=case["at"])
+    rtype = case.get("raise_type", "ValueError")
+    out = run_config(name, True, raise_at=case["at"], raise_type=rtype)
     if out["calls"] < case["at"] or (out["exc"] is None and out["calls"] <= case["at"]):
         return {"calls": out["calls"], "skipped": True}
     check(out["exc"] is not None, "evaluator-exception-swallowed", f"the evaluator raised at evaluation {case['at']} but the step returned {out['code']!r}", case)
-    check(isinstance(out["exc"], ValueError) and "injected evaluator error" in str(out["exc"]), "evaluator-exception-changed",
-          f"the evaluator's ValueError arrived as {type(out['exc']).__name__}: {out['exc']}", case)
+    check(type(out["exc"]) is RAISE_TYPES[rtype] and "injected evaluator error" in str(out["exc"]), "evaluator-exception-changed",
+          f"the evaluator's {rtype} arrived as {type(out['exc']).__name__}: {out['exc']}", case)
     check(not out["leftover"], "child-left-running", f"optimizer process {out['leftover']} still running after the evaluator raised", case)
     return {"calls": out["calls"]}
 
@@ -459,7 +475,8 @@ def shards(tier: str, seed: int) -> list[dict[str, Any]]:  # noqa: ARG001
             for sig in (int(signal.SIGKILL), int(signal.SIGTERM)):
                 items.append({"kind": "kill", "config": name, "at": j, "signal": sig, "mode": "immediate"})
                 items.append({"kind": "kill", "config": name, "at": j, "signal": sig, "mode": "deferred"})
-            items.append({"kind": "raise", "config": name, "at": j})
+            items.extend({"kind": "raise", "config": name, "at": j, "raise_type": rtype}
+                         for rtype in (("ValueError", "FileNotFoundError", "custom") if tier == "quick" else RAISE_TYPES))
     return items
 
 
